@@ -172,6 +172,12 @@ def run(chk):
         what = (f"factor_intermediates(<fully expanded {label} term>, "
                 f"types_or_names={subset}, max_order={max_order})")
         fx = Expr(full.sympy, **full.assumptions)
+        if r.random() < 0.5:
+            # the summation indices named independently in every term
+            fx = build.rename_dummies(fx, r)
+            full = Expr(fx.sympy, **fx.assumptions)
+            what += " [summation indices renamed per term]"
+            chk.count("renamed_inputs")
         res, exc = guarded(factor_intermediates, fx, subset, max_order)
         chk.count("factor_calls")
         if exc:
@@ -310,9 +316,66 @@ def run(chk):
                 continue
             emit(pre_, build.expand_mul(Expr(res2.sympy, **res2.assumptions)),
                  f"itmd:factor:mixed-prefactor:{label}", what, tsyms)
+    # (f) a long intermediate times a remainder with a contraction of its
+    #     own whose summation index is named differently in every term
+    m_, n_ = get_symbols("mn")
+    e_, f_ = get_symbols("ef")
+    Wkm = AntiSymmetricTensor("Wq", (k,), (m_,), 0)
+    ren_sources = [
+        ("t2_2*W*Y scalar", t22.tensor("klcd").sympy * Wkm *
+         Amplitude(tn.right_adc_amplitude, (c, d), (m_, l)), []),
+        ("t2_2*W*Y open", t22.tensor("klcd").sympy * Wkm *
+         Amplitude(tn.right_adc_amplitude, (c, a), (m_, i)), [i, l, a, d]),
+        ("t1_2*W*Y", t12.tensor("kc").sympy * Wkm *
+         Amplitude(tn.right_adc_amplitude, (c,), (m_,)), []),
+        ("t2_2*W(virt)*Y", t22.tensor("klcd").sympy *
+         AntiSymmetricTensor("Wq", (c,), (e_,), 0) *
+         Amplitude(tn.right_adc_amplitude, (e_, d), (k, l)), []),
+    ]
+    for label, sym_expr, tsyms in (ren_sources[:2] if quick else ren_sources):
+        x = Expr(sym_expr, real=True, target_idx=tsyms)
+        res, exc = guarded(x.expand_intermediates, True)
+        if exc:
+            continue
+        full = build.expand_mul(Expr(res.sympy, **res.assumptions))
+        rem_idx = {m_, e_}
+        for rep in range(2 if quick else 4):
+            # rename only the remainder's own summation index, per term
+            from sympy import Add as _Add2
+            pool = {"occ": list(get_symbols("mnoi2j2k2l2m2")),
+                    "virt": list(get_symbols("efgha2b2c2d2"))}
+            for sp in pool:
+                r.shuffle(pool[sp])
+            new_terms = []
+            for q, term in enumerate(full.terms):
+                sub = {s_: pool[s_.space][q % len(pool[s_.space])]
+                       for s_ in term.contracted if s_ in rem_idx}
+                new_terms.append(term.sympy.subs(sub, simultaneous=True))
+            fx = Expr(_Add2(*new_terms), **full.assumptions)
+            pre_ = Expr(fx.sympy, **fx.assumptions)
+            subset = ["t2_2"] if "t2_2" in label else ["t1_2"]
+            what = (f"factor_intermediates(<fully expanded {label}, the "
+                    f"remainder's summation index renamed per term #{rep}>, "
+                    f"{subset})")
+            res2, exc = guarded(factor_intermediates, fx, subset)
+            chk.count("factor_calls")
+            if exc:
+                if exc.get("timeout") or exc["type"] == "NotImplementedError":
+                    chk.count("refused_or_timeout")
+                else:
+                    chk.report_direct("itmd:factor:exception", f"{what} raised "
+                                      f"{exc['type']}: {exc['msg']}", exc)
+                continue
+            emit(pre_, build.expand_mul(Expr(res2.sympy, **res2.assumptions)),
+                 f"itmd:factor:renamed-dummy:{label}", what, tsyms)
     evs = list(chk.events)
     for i in range(0, len(evs), 40):
         chk.judge_with_header(header, evs[i:i + 40])
+    if chk.tier != "quick":
+        # system-level workflows (spec/Pipeline.tla): the steps that belong
+        # to this property's operations
+        from .pipeline import run_pipelines
+        run_pipelines(chk, "C11")
     return chk.finish(
         rule="seeded products of 1-2 registered intermediates (t2_1, t1_2, "
              "t2_2, p0_2_oo/vv, t2eri_1..7/A/B, t2sq) with free tensors "
